@@ -138,6 +138,14 @@ def diagnose(program, victim, share_tables, okw=None):
     """Minimal interfering set and signature for a violation that reproduces sequentially."""
     base = set(lang.cone(program, victim))
     extra = set(range(len(program))) - base
+    # reduce with a narrow observation (one context in which the difference shows) when that is enough
+    d0, _, _ = ablate(program, victim, share_tables, okw=okw)
+    ctxs = [x.split(":", 1)[1] for x in d0 if ":" in x]
+    if ctxs:
+        narrow = dict(okw or {}, ctx_names=[ctxs[0]], light=True)
+        dn, _, _ = ablate(program, victim, share_tables, okw=narrow)
+        if dn:
+            okw = narrow
 
     def fails(keep):
         d, _, _ = ablate(program, victim, share_tables, keep=keep, okw=okw)
@@ -398,7 +406,8 @@ def batch(task):
             agg["harness"].append({"run": run, "why": repr(e)[:200]})
             continue
         fold(agg, res, program)
-        if len(agg["violations"]) >= task.get("max_viol", 12):
+        runner.note_violations(len(res["violations"]))
+        if len(agg["violations"]) >= task.get("max_viol", 12) or runner.stop_requested():
             break
     return agg
 
@@ -460,7 +469,7 @@ def merge(aggs):
 # ------------------------------------------------------------------ tiers / evidence
 TIERS = {
     "quick": {"runs": 10000, "chunk": 50, "wall_cap": 900},
-    "thorough": {"runs": 40000, "chunk": 100, "wall_cap": 3400},
+    "thorough": {"runs": 200000, "chunk": 200, "wall_cap": 5400},
 }
 
 ASSUMPTIONS = [
